@@ -7,6 +7,7 @@ from __future__ import annotations
 
 from mc import alphabets as AL
 from mc import jspec, jwire, pool, roundtrip as RT
+from mc import terms as T
 from mc.terms import XSD_STRING
 
 LEVEL = "exploration"
@@ -66,6 +67,7 @@ def naive_rows_size(seq, cls: str, preset) -> int:
 
 def audit(case, seq, data: bytes) -> list[tuple[str, str]]:
     cls = case["cls"]
+    rdflib_api = case.get("api") == "rdflib"
     frames = jwire.read_delimited(data) if case["delimited"] else jwire.read_single(data)
     dec, per = jspec.decode_frames(frames)
     fails: list[tuple[str, str]] = []
@@ -96,7 +98,9 @@ def audit(case, seq, data: bytes) -> list[tuple[str, str]]:
                         and ref["prefix_wire"] != 0):
                     fails.append(("prefix-id-not-zero",
                                   f"prefix_id {ref['prefix_wire']} where 0 was equivalent ({ref['iri']})"))
-        if k in ("triple", "quad"):
+        if k in ("triple", "quad") and not rdflib_api:
+            # (rdflib containers iterate in their own order and rdflib's term equality is
+            #  not the neutral one, so elision is audited through the generic API only)
             if st_i > 0:
                 prev, cur = seq[st_i - 1], seq[st_i]
                 slots = "spo" if k == "triple" else "spog"
@@ -105,12 +109,16 @@ def audit(case, seq, data: bytes) -> list[tuple[str, str]]:
                         fails.append(("repeat-not-elided",
                                       f"statement {st_i} slot {slot} equals the previous one but is sent"))
             st_i += 1
-    if cls == "graph":
+    if rdflib_api:
+        seq = [T.norm_st(x) for x in jspec.statements(per)]
+    if cls == "graph" and not rdflib_api:
         runs = sum(1 for i, st in enumerate(seq) if i == 0 or st[3] != seq[i - 1][3])
         if starts > runs:
             fails.append(("graph-restarted",
                           f"{starts} graph starts for {runs} runs of equal graph names"))
     naive = naive_rows_size(seq, cls, tuple(case["preset"]))
+    if rdflib_api and cls == "graph":
+        naive = rows_size  # a Dataset also hands over its (empty) default graph: not judged
     if rows_size > naive:
         fails.append(("larger-than-naive", f"{rows_size} row bytes > naive {naive}"))
     return fails
@@ -128,11 +136,17 @@ def judge(case, seq, data, exc, acc) -> None:
         return
     acc.counters["audited"] += 1
     for rule, msg in fails:
-        acc.violation({"rule": rule, "cls": case["cls"]}, f"{msg} case={case}", case)
+        acc.violation({"rule": rule, "cls": case["cls"], "api": case.get("api", "generic")},
+                      f"{msg} case={case}", case)
 
 
 def shard(job) -> dict:
-    out = RT.run_job(job, judge)
+    if job[0] == "R":
+        from mc import rtrdflib  # noqa: PLC0415
+
+        out = rtrdflib.run_job(job, judge)
+    else:
+        out = RT.run_job(job, judge)
     out["extra"] = {}
     return out
 
@@ -141,7 +155,11 @@ def run(ctx) -> None:
     L = 3 if ctx.quick else 4
     jobs = RT.core_jobs(L, parts=4 if ctx.quick else 16)
     expected = RT.expected_cases(jobs)
-    merged = pool.merge(pool.pmap(shard, jobs))
+    from mc import rtrdflib  # noqa: PLC0415
+
+    rjobs = rtrdflib.jobs(L, parts=2 if ctx.quick else 12)
+    expected += rtrdflib.expected_cases(rjobs)
+    merged = pool.merge(pool.pmap(shard, jobs + rjobs))
     ctx.add(merged)
     if merged["evals"] != expected:
         from mc.env import HarnessError  # noqa: PLC0415
@@ -165,4 +183,8 @@ def run(ctx) -> None:
 
 
 def replay(case: dict) -> list:
+    if case.get("api") == "rdflib":
+        from mc import rtrdflib  # noqa: PLC0415
+
+        return rtrdflib.replay_case(case, judge)
     return RT.replay_case(case, judge)
